@@ -16,6 +16,7 @@ import collections
 import hashlib
 import json
 import multiprocessing
+import itertools
 import os
 import re
 import shutil
@@ -172,19 +173,37 @@ class LogCapture:
         return out
 
 
+# --- process history of a worker --------------------------------------------------------------
+# A forked worker handles several tasks one after another; code under test that keeps state between
+# calls (a module-level cache, a mutated default) makes a later case fail only because of the earlier
+# ones.  Every violation therefore carries the ordered list of tasks its worker had executed so far,
+# so that the runner can replay the case together with that history when it does not fail on its own.
+_HIST = []
+_PMAPS = {}
+_PMAP_IDS = itertools.count()
+
+
 def _worker_init():
     # workers inherit the bound repo by fork; make sure BLAS does not oversubscribe
     os.environ['OMP_NUM_THREADS'] = '1'
+    del _HIST[:]
 
 
 def _call(args):
-    fn, task = args
+    fn, task, key = args
+    if key is not None:
+        _HIST.append(key)
     try:
-        return fn(task)
+        res = fn(task)
     except HarnessError:
         raise
     except BaseException as err:   # a crash of the harness inside a worker
         raise HarnessError('worker failed on task %r:\n%s' % (task, traceback.format_exc())) from err
+    if key is not None and isinstance(res, Acc) and res.violations:
+        hist = [list(k) for k in _HIST]
+        res.violations = [(sig, desc, dict(case, _history=hist) if isinstance(case, dict) else case)
+                          for sig, desc, case in res.violations]
+    return res
 
 
 def pmap(fn, tasks, nproc=None, chunksize=1, fresh=False):
@@ -192,15 +211,62 @@ def pmap(fn, tasks, nproc=None, chunksize=1, fresh=False):
     fresh=True gives every task its own newly forked process (no interpreter state is shared
     between tasks: needed where a task must start from a clean module state)."""
     tasks = list(tasks)
+    pid = next(_PMAP_IDS)
+    _PMAPS[pid] = (fn, tasks)
     nproc = min(nproc or NPROC, max(1, len(tasks)))
     if nproc <= 1 or os.environ.get('VERIF_SERIAL'):
-        for t in tasks:
-            yield _call((fn, t))
+        del _HIST[:]
+        for idx, t in enumerate(tasks):
+            yield _call((fn, t, (pid, idx)))
+        del _HIST[:]
         return
     ctx = multiprocessing.get_context('fork')
     with ctx.Pool(nproc, initializer=_worker_init, maxtasksperchild=1 if fresh else None) as pool:
-        for res in pool.imap(_call, [(fn, t) for t in tasks], chunksize=chunksize):
+        for res in pool.imap(_call, [(fn, t, (pid, idx)) for idx, t in enumerate(tasks)], chunksize=chunksize):
             yield res
+
+
+def _apply(args):
+    fn, fargs = args
+    return fn(*fargs)
+
+
+def in_child(fn, *fargs):
+    """fn(*fargs) in a newly forked process (fn module level, result picklable)."""
+    ctx = multiprocessing.get_context('fork')
+    with ctx.Pool(1, initializer=_worker_init, maxtasksperchild=1) as pool:
+        return pool.apply(_apply, ((fn, fargs),))
+
+
+def _run_history(entries):
+    res = None
+    for fn, task in entries:
+        res = fn(task)
+    return [(sig, desc) for sig, desc, _ in getattr(res, 'violations', [])]
+
+
+def history_entries(hist):
+    return [(_PMAPS[pid][0], _PMAPS[pid][1][idx]) for pid, idx in hist]
+
+
+def replay_history(entries):
+    """Replays, in one fresh process, the tasks a worker had executed up to and including the failing one;
+    returns the (signature, description) pairs of the LAST task."""
+    return in_child(_run_history, entries)
+
+
+def pack_history(entries):
+    import base64, pickle, zlib
+    blob = zlib.compress(pickle.dumps([(fn.__module__, fn.__qualname__, task) for fn, task in entries]), 9)
+    return base64.b64encode(blob).decode('ascii')
+
+
+def unpack_history(text):
+    import base64, pickle, zlib, importlib
+    out = []
+    for mod, name, task in pickle.loads(zlib.decompress(base64.b64decode(text))):
+        out.append((getattr(importlib.import_module(mod), name), task))
+    return out
 
 
 def chunked(iterable, n):
